@@ -428,6 +428,36 @@ example :
       m.getDependency (Str.ofString "b") none none 2 = none := by
   decide
 
+/-! ## `Distrib._createDeps`: the dependency manifest is in install order -/
+
+/-- **The product being packaged comes last.**  Whatever the dependency list: when `_createDeps` succeeds, the last
+entry of the manifest is the top product itself (it is added first and `roll()` takes it to the end), and the entries
+before it are exactly the listed dependencies, deepest first. -/
+theorem C18_createdeps_top_last (top : Str × Str) (deps : List DepReq) (l : List (Str × Str × Bool))
+    (h : createDepsOrder top deps = some l) :
+    ∃ ds, listDeps (sortByDepth deps) = some ds ∧ l = ds ++ [(top.1, top.2, false)] := by
+  unfold createDepsOrder at h
+  cases hd : listDeps (sortByDepth deps) with
+  | none => simp [hd] at h
+  | some ds =>
+    simp only [hd, Option.map_some, Option.some.injEq] at h
+    refine ⟨ds, rfl, ?_⟩
+    rw [← h]
+    simp [rollList, iter, rollLeft1]
+
+/-- the sort by depth is the stable one: of two dependencies of equal depth the one `getDependentProducts` listed first
+stays first; a deeper one comes before a shallower one (on the example of a diamond with an optional leaf) -/
+example :
+    let d := fun (n : String) (depth : Nat) (opt : Bool) (found : Option String) =>
+      ({ name := Str.ofString n, version := Str.ofString "1", optional := opt, depth := depth, found := found.map Str.ofString } : DepReq)
+    createDepsOrder (Str.ofString "top", Str.ofString "1")
+        [d "a" 2 false (some "1"), d "b" 2 false (some "1"), d "c" 3 false (some "1.1"), d "ghost" 3 true none, d "d" 3 true (some "1")] =
+      some [(Str.ofString "c", Str.ofString "1.1", false), (Str.ofString "d", Str.ofString "1", true),
+            (Str.ofString "a", Str.ofString "1", false), (Str.ofString "b", Str.ofString "1", false),
+            (Str.ofString "top", Str.ofString "1", false)] ∧
+      createDepsOrder (Str.ofString "top", Str.ofString "1") [d "a" 2 false none] = none := by
+  decide
+
 /-! ## tag lists as live objects: `mergeProductList` -/
 
 /-- every listed product has its `[flavor, version, …]` record (what `addProduct` maintains) -/
